@@ -1,16 +1,9 @@
-"""Per-property MANIFEST text. A property appears in CHECKS only once its check passes a seed sweep on the current tree."""
+"""Which properties MANIFEST.json claims. A property is listed in CLAIMED only once its check passes a seed sweep on the
+current tree; the per-property texts live in harness/props/<id>.py as a literal MANIFEST dict."""
 
-COMMON_NOTE = ("Trusted: Lean 4.33 kernel; axioms ⊆ {propext, Classical.choice, Quot.sound} (audited per theorem each run); "
+COMMON_NOTE = ("Trusted: Lean 4.33 kernel; axioms within {propext, Classical.choice, Quot.sound} (audited per theorem each run); "
                "translate/gen.py; the correspondence harness; Python runtime semantics as modelled in lean/Pycoin/Py. ")
 
-CHECKS = {
-    "C13": {
-        "text": "Lean theorems over the model of split_with_remainder / distribute_from_split_pool / fee / validate_unspents / Decimal conversions "
-                "(sum, shape, positivity, exact error thresholds, soundness of validate_unspents, satoshi<->BTC/mBTC round trip below 10^20) for all inputs; "
-                "model tied to the code by differential correspondence through create_tx, Tx.fee, validate_unspents and convention on every run.",
-        "note": COMMON_NOTE + "Modelled not verified: decimal.Decimal (precision 28, half-even) and the deprecated fee='standard' estimator (excluded).",
-        "technique": "Lean 4 proof (induction/omega over an executable model) + differential correspondence model vs implementation",
-    },
-}
+CLAIMED = ["C13"]
 
 NOT_YET = {("C%02d" % i): "check not built yet at this commit (work in progress; see DESIGN.md build order)" for i in range(1, 21)}
